@@ -98,6 +98,7 @@ std::vector<uint8_t> encode_units(int enc, const std::vector<long long> &units);
 // result reporting: one NDJSON line per failure, a summary line at the end
 void report_fail(const char *prop, const std::string &why, const std::string &caseJson);
 extern long g_fail, g_cases, g_drift;
+extern void (*g_rule_sink)(int ev, long a, long b, long c, long d);
 void report_summary(const char *extra = 0);
 
 std::string slurp(const std::string &path);
